@@ -26,15 +26,22 @@ class Acc:
     def count(self, name, n=1):
         self.counters[name] = self.counters.get(name, 0) + n
 
+    CAP = 60000      # per shard; beyond it non-trivial cases are still checked but no longer collected (conservative count)
+
     def nontrivial(self, obj, cls=None):
+        if len(self.distinct) >= self.CAP:
+            self.count('nontrivial_beyond_collection_cap')
+            return
         d = obj if isinstance(obj, str) and len(obj) == 16 else digest(obj)
         self.distinct.add(d)
-        if cls:
-            self.distinct_by.setdefault(cls, set()).add(d)
+        if cls and len(self.distinct_by.setdefault(cls, set())) < self.CAP:
+            self.distinct_by[cls].add(d)
 
     def klass(self, cls, obj):
+        if len(self.distinct_by.setdefault(cls, set())) >= self.CAP:
+            return
         d = obj if isinstance(obj, str) and len(obj) == 16 else digest(obj)
-        self.distinct_by.setdefault(cls, set()).add(d)
+        self.distinct_by[cls].add(d)
 
     def sample(self, obj, limit=2):
         if len(self.samples) < limit:
@@ -56,9 +63,49 @@ class Acc:
                     evaluations=self.evaluations, extra=self.extra)
 
 
+class Reach:
+    """Which lines of the code under test (REPO/sismic/**) did this shard's workload execute?  sys.monitoring LINE events,
+    each location disabled after its first hit, so the cost is negligible.  Evidence only (never part of a verdict)."""
+    TOOL = 1
+
+    def __init__(self):
+        self.hits = {}
+        self.on = False
+
+    def start(self):
+        import os
+        import sys
+        from .common import REPO
+        mon = getattr(sys, 'monitoring', None)
+        if mon is None or os.environ.get('VERIF_NO_REACH'):
+            return
+        try:
+            mon.use_tool_id(self.TOOL, 'vf-reach')
+        except ValueError:
+            return
+        prefix = os.path.join(REPO, 'sismic') + os.sep
+        hits = self.hits
+        DISABLE = mon.DISABLE
+
+        def on_line(code, line):
+            fn = code.co_filename
+            if fn.startswith(prefix):
+                hits.setdefault(fn[len(REPO) + 1:], {}).setdefault(code.co_qualname, set()).add(line)
+            return DISABLE
+        mon.register_callback(self.TOOL, mon.events.LINE, on_line)
+        mon.set_events(self.TOOL, mon.events.LINE)
+        self.on = True
+
+    def result(self):
+        return {f: {q: sorted(ls) for q, ls in d.items()} for f, d in self.hits.items()}
+
+
 def run_cases(pid, tier, seed, cases, verbose=False, shard=0, nshards=1):
     mod = importlib.import_module('vf.props.%s' % pid.lower())
     acc = Acc(pid, tier, seed, verbose)
+    reach = Reach()
+    reach.start()
+    acc.reach = reach
     if hasattr(mod, 'setup_shard'):
         mod.setup_shard(acc, shard, nshards)
     for c in cases:
@@ -73,7 +120,9 @@ def run_cases(pid, tier, seed, cases, verbose=False, shard=0, nshards=1):
         acc.evaluations += 1
     if hasattr(mod, 'finish_shard'):
         mod.finish_shard(acc, shard, nshards)
-    return acc.result()
+    r = acc.result()
+    r['reach'] = reach.result()
+    return r
 
 
 def main(argv):
